@@ -1,17 +1,19 @@
-SPECIFICATION Spec
+SPECIFICATION SimSpec
 CONSTANTS
   Cap = 2
   H0 = 0
   MaxIdx = 4
   Procs = {"p1", "p2"}
   MaxPuts = 4
-  Blocking = TRUE
+  Blocking = FALSE
   WithExternal = FALSE
-  WithDiscard = TRUE
+  WithDiscard = FALSE
   WithRequester = FALSE
   PeerH = 0
   BugClearAlways = FALSE
   BugKeepOld = FALSE
+  Depth = 1000
+  WitnessKind = "failadd"
 VIEW view
-INVARIANTS TypeOK NoPanic
+INVARIANT Emit
 CHECK_DEADLOCK FALSE
